@@ -3,6 +3,7 @@ import VncModel.Ws.LemmasStrict
 import VncModel.Ws.LemmasEncoder
 import VncModel.Ws.LemmasB64Law
 import VncModel.Ws.Handshake
+import VncModel.Leaf.EquivWs
 /-!
 # C09 — WebSocket transport is transparent and strict
 
@@ -29,7 +30,8 @@ every call's result, every read request and the whole decoder state are compared
   stream, what is still owed is exactly the rest, and every read request the decoder issued lies
   inside its buffer with a positive size (memory-safety core, reused by C04).
 * `decoder_complete` — if moreover all input is consumed and nothing is buffered, the caller has
-  received exactly the whole payload stream.
+  received exactly the whole payload stream.  `decoder_progress` — no stall: every call delivers
+  bytes or consumes input unless the transport has nothing to give.
 * `strict_*` — unmasked frame, fragmented control frame, continuation without start, non-minimal
   length encodings, Close: the call ends with EPROTO / ECONNRESET (decoder reset) and never returns
   payload; quantified over every decoder state and every oracle.
@@ -75,8 +77,6 @@ target buffer is larger than the data -/
 theorem base64_roundtrip (z : List Byte) (ts : Nat) (h : z.length < ts) : pton (ntop z) ts = some z :=
   pton_ntop z ts h
 
-private theorem b64Law : B64RoundTrip := fun z ts h => pton_ntop z ts h
-
 example : pton (ntop [1, 2, 3, 4]) 10 = some [1, 2, 3, 4] := by decide
 
 /-! ## transparency under all schedules -/
@@ -112,14 +112,29 @@ theorem decoder_complete (fs : List Frame) (hv : ValidSeq opInvalid fs)
   rw [h, Inv_finished _ _ hinv hbuf, List.append_nil]
 
 /-- one call, from any state the invariant describes: either bytes (at most `len`, the next ones
-owed) or EAGAIN; never an error, never an out-of-buffer read -/
+owed) or EAGAIN; never an error, never an out-of-buffer read; plus the progress clause -/
 theorem decoder_step (c : Ctx) (e : Env) (V : List Byte) (len : Nat)
     (hinv : Inv c e.pending V) (hff : e.FaultFree) (hs : e.Safe) (hlen : 0 < len) :
     ∃ out V', (decode c e len).2.2 = (if out = [] then Res.again else Res.data out) ∧
       out.length ≤ len ∧ V = out ++ V' ∧
       Inv (decode c e len).1 (decode c e len).2.1.pending V' ∧
-      (decode c e len).2.1.FaultFree ∧ (decode c e len).2.1.Safe :=
+      (decode c e len).2.1.FaultFree ∧ (decode c e len).2.1.Safe ∧
+      (out ≠ [] ∨ (decode c e len).2.1.pending.length < e.pending.length ∨ e.Stuck) :=
   decode_step b64Law c e V len hinv hff hs hlen
+
+/-- **no stall.**  A call returns bytes, or consumes at least one pending byte, unless the transport
+itself has nothing to give (its next answer is EAGAIN or nothing is pending).  Since the pending
+input and the owed output are finite, every schedule that answers EAGAIN only finitely often
+drives the run to the end, where `decoder_complete` applies. -/
+theorem decoder_progress (c : Ctx) (e : Env) (V : List Byte) (len : Nat)
+    (hinv : Inv c e.pending V) (hff : e.FaultFree) (hs : e.Safe) (hlen : 0 < len) :
+    (∃ bs, bs ≠ [] ∧ (decode c e len).2.2 = .data bs) ∨
+    (decode c e len).2.1.pending.length < e.pending.length ∨ e.Stuck := by
+  obtain ⟨out, _, h1, _, _, _, _, _, h⟩ := decode_step b64Law c e V len hinv hff hs hlen
+  rcases h with h | h | h
+  · exact Or.inl ⟨out, h, by rw [h1]; simp [h]⟩
+  · exact Or.inr (Or.inl h)
+  · exact Or.inr (Or.inr h)
 
 -- non-vacuity: a fragmented binary message with a ping inside, then a base64 text frame
 private def exFrames : List Frame :=
@@ -366,3 +381,16 @@ theorem handshake_accept_key (sha1 : List Byte → List Byte) (req resp path unr
                   · right; right; simp [hb, hbin]
 
 end VncModel.Props.C09
+
+/-! ## T1: the regenerated C leaf functions are the model's functions
+
+The definitions `VncModel.Gen.Leaf.*` are translated from /repo's current C source by
+`tools/c2lean.py` on every run; these theorems are the proof obligations that break when the C
+functions change (see docs/T1.md). -/
+namespace VncModel.Props.C09.T1
+
+/-- `hybiRemaining` as compiled now = the model's `Ctx.remaining` -/
+theorem code_hybiRemaining_eq_model (c : VncModel.Ws.Ctx) (h : c.nReadPayload ≤ 2 ^ 64) :
+    VncModel.Gen.Leaf.hybiRemaining c.payloadLen c.nReadPayload = (c.remaining : Nat) :=
+  VncModel.Leaf.hybiRemaining_eq c h
+end VncModel.Props.C09.T1
